@@ -242,7 +242,13 @@ def gen_hybrid_case(rs):
     params = dict(max_clusters=int(rs.choice([2, 3, 4, 5, 5, 6, 7])), max_depth=[None, None, None, 3, 4][rs.randint(5)],
                   min_samples_leaf=msl, max_features=[None, None, 1, 2][rs.randint(4)],
                   max_leaves=[None, None, None, 5, 6][rs.randint(5)], kernel="precomputed", random_state=int(rs.randint(1000)))
-    params["min_samples_split"] = max(2, 2 * msl) + int(rs.choice([0, 0, 0, 1, 2]))
+    params["min_samples_split"] = max(2, 2 * msl) + int(rs.choice([0, 0, 0, 1, 2, 4, 6]))
+    if rs.rand() < 0.25:
+        # a feature with geometrically growing gaps: the greedy tree peels one sample off at a time (very unbalanced trees)
+        X[:, 0] = np.sort(2.0 ** rs.permutation(len(X))[:len(X)])[rs.permutation(len(X))]
+        kern = (X[:, :1] @ X[:, :1].T)
+        params["max_clusters"] = int(rs.choice([5, 6, 8]))
+        params["max_leaves"], params["max_depth"] = None, None
     return X, kern, params
 
 
